@@ -41,6 +41,18 @@ def run(tier, replay):
                 hs.append({"id": len(hs) + 1, "theory": theory, "fam": -1,
                            "steps": histories.random_history(sig, api, rnd, rnd.randint(110, 160), 24, p_close=0.01, p_until=0.01,
                                                              allow_define=False, enum_prob=0.0)})
+            # one long cycle per homogeneous binary relation: closes that merge dozens of equally heavy classes
+            # in a single iteration (weight ties everywhere, large batches of queued equalities)
+            for rel in api["insert"]:
+                cols = sig.rels[rel]["cols"]
+                if len(cols) == 2 and cols[0] == cols[1] and cols[0] in api["new"] and not sig.rels[rel]["func"]:
+                    n = 40
+                    steps = [{"op": "new", "ty": cols[0]} for _ in range(n)]
+                    order = list(range(n))
+                    rnd.shuffle(order)
+                    steps += [histories.step_insert(rel, [i, (i + 1) % n]) for i in order]
+                    steps.append({"op": "close"})
+                    hs.append({"id": len(hs) + 1, "theory": theory, "fam": -1, "steps": steps})
     hpath = os.path.join(work, "histories.ndjson")
     vlib.write_ndjson(hpath, hs)
     variants = [("plain", [], {}), ("no-aslr", ["setarch", "-R"], {}), ("prealloc", [], {"MODEL_DRIVER_PREALLOC": "5000"}),
